@@ -316,3 +316,93 @@ Qed.
 Theorem safe_yaml_plain_core_string_refuted :
   exists s, is_safe_yaml_plain s = true /\ yaml12_core_nonstring s = true.
 Proof. exists [49; 101; 53]. split; vm_compute; reflexivity. Qed.
+
+(* ---------------------------------------------------------------- the decoder is strict:
+   whatever lex_string accepts is a quoted sequence of RFC 8259 chars *)
+Lemma str_chars_app : forall p e a b, str_chars p e a -> str_chars p e b -> str_chars p e (a ++ b).
+Proof. intros p e a b Ha Hb. induction Ha; cbn [app]; [exact Hb| | |]; constructor; assumption. Qed.
+
+Lemma hex4_sound : forall s u r, hex4 s = Some (u, r) ->
+  exists a b c d, s = a :: b :: c :: d :: r /\ is_hex a = true /\ is_hex b = true /\ is_hex c = true /\ is_hex d = true.
+Proof.
+  intros s u r H. destruct s as [|a [|b [|c [|d s]]]]; try discriminate. cbn [hex4] in H.
+  destruct (hex_val a) eqn:Ea; try discriminate. destruct (hex_val b) eqn:Eb; try discriminate.
+  destruct (hex_val c) eqn:Ec; try discriminate. destruct (hex_val d) eqn:Ed; try discriminate.
+  injection H as _ <-. exists a, b, c, d. unfold is_hex. rewrite Ea, Eb, Ec, Ed. repeat split.
+Qed.
+
+Lemma match_bs_u : forall (r2 : str) (A : str -> unit_res) c r,
+  match r2 with 92 :: 117 :: r3 => A r3 | _ => UErr end = UChar c r ->
+  exists r3, r2 = 92 :: 117 :: r3 /\ A r3 = UChar c r.
+Proof.
+  intros r2 A c r H. destruct r2 as [|y1 [|y2 r3]]; try discriminate H.
+  - destruct y1 as [|p1]; [discriminate H|]. repeat (destruct p1 as [p1|p1|]; try discriminate H).
+  - destruct y1 as [|p1]; [discriminate H|]. repeat (destruct p1 as [p1|p1|]; try discriminate H).
+    destruct y2 as [|p2]; [discriminate H|]. repeat (destruct p2 as [p2|p2|]; try discriminate H).
+    exists r3. split; [reflexivity|exact H].
+Qed.
+
+Lemma lex_unit_sound : forall s c r, lex_unit s = UChar c r -> exists u, s = u ++ r /\ json_chars u.
+Proof.
+  intros s c r H. destruct s as [|x s]; [discriminate|]. cbn [lex_unit] in H.
+  destruct (N.eqb_spec x 34) as [->|Hq]; [discriminate|].
+  destruct (N.eqb_spec x 92) as [->|Hb].
+  - destruct s as [|e s]; [discriminate|].
+    destruct (simple_escape e) as [d|] eqn:Es.
+    + injection H as _ <-. exists [92; e]. split; [reflexivity|].
+      apply sc_esc; [unfold json_esc; rewrite Es; reflexivity|constructor].
+    + destruct (N.eqb_spec e 117) as [->|]; [|discriminate].
+      destruct (hex4 s) as [[u r2]|] eqn:E4; [|discriminate].
+      destruct (hex4_sound _ _ _ E4) as [a [b [c' [d [-> [Ha [Hb' [Hc Hd]]]]]]]].
+      destruct (is_high_surrogate u).
+      * apply match_bs_u in H. destruct H as [r3 [-> H]].
+        destruct (hex4 r3) as [[l r4]|] eqn:E5; [|discriminate].
+        destruct (hex4_sound _ _ _ E5) as [a2 [b2 [c2 [d2 [-> [Ha2 [Hb2 [Hc2 Hd2]]]]]]]].
+        destruct (is_low_surrogate l); [|discriminate].
+        assert (Hr : r4 = r) by (exact (f_equal (fun x => match x with UChar _ t => t | _ => r4 end) H)).
+        subst r. clear H.
+        exists [92; 117; a; b; c'; d; 92; 117; a2; b2; c2; d2]. split; [reflexivity|].
+        apply sc_u; auto. apply sc_u; auto. constructor.
+      * destruct (is_low_surrogate u); [discriminate|]. injection H as _ <-.
+        exists [92; 117; a; b; c'; d]. split; [reflexivity|]. apply sc_u; auto. constructor.
+  - destruct (x <? 32) eqn:Hlt; [discriminate|]. injection H as _ <-.
+    exists [x]. split; [reflexivity|]. apply sc_plain; [|exact Hq|exact Hb|constructor].
+    unfold json_plain. apply N.leb_le. apply N.ltb_ge. exact Hlt.
+Qed.
+
+Lemma lex_unit_end : forall s r, lex_unit s = UEnd r -> s = 34 :: r.
+Proof.
+  intros s r H. destruct s as [|x s]; [discriminate|]. cbn [lex_unit] in H.
+  destruct (N.eqb_spec x 34) as [->|Hq]; [injection H as <-; reflexivity|].
+  destruct (x =? 92).
+  - destruct s as [|e s]; [discriminate|]. destruct (simple_escape e); [discriminate|].
+    destruct (e =? 117); [|discriminate]. destruct (hex4 s) as [[u r2]|]; [|discriminate].
+    destruct (is_high_surrogate u).
+    + destruct r2 as [|y1 [|y2 r3]]; try discriminate H.
+      * destruct y1 as [|p1]; [discriminate H|]. repeat (destruct p1 as [p1|p1|]; try discriminate H).
+      * destruct y1 as [|p1]; [discriminate H|]. repeat (destruct p1 as [p1|p1|]; try discriminate H).
+        destruct y2 as [|p2]; [discriminate H|]. repeat (destruct p2 as [p2|p2|]; try discriminate H).
+        destruct (hex4 r3) as [[l r4]|]; [|discriminate]. destruct (is_low_surrogate l); discriminate.
+    + destruct (is_low_surrogate u); discriminate.
+  - destruct (x <? 32); discriminate.
+Qed.
+
+Lemma lex_string_body_sound : forall fuel s cs r, lex_string_body fuel s = Some (cs, r) ->
+  exists body, s = body ++ 34 :: r /\ json_chars body.
+Proof.
+  induction fuel as [|f IH]; intros s cs r H; [discriminate|].
+  cbn [lex_string_body] in H. destruct (lex_unit s) as [r0|c r0|] eqn:Eu; [| |discriminate].
+  - injection H as _ <-. rewrite (lex_unit_end _ _ Eu). exists []. split; [reflexivity|constructor].
+  - destruct (lex_string_body f r0) as [[cs' r']|] eqn:Er; [|discriminate]. injection H as _ <-.
+    destruct (lex_unit_sound _ _ _ Eu) as [u [-> Hu]].
+    destruct (IH _ _ _ Er) as [body [-> Hb]].
+    exists (u ++ body). split; [rewrite app_assoc; reflexivity|apply str_chars_app; assumption].
+Qed.
+
+Theorem lex_string_sound : forall s cs r, lex_string s = Some (cs, r) ->
+  exists body, s = 34 :: body ++ 34 :: r /\ json_chars body.
+Proof.
+  intros s cs r H. destruct s as [|x s]; [discriminate|]. cbn [lex_string] in H.
+  destruct x as [|p]; [discriminate H|]. repeat (destruct p as [p|p|]; try discriminate H).
+  destruct (lex_string_body_sound _ _ _ _ H) as [body [-> Hb]]. exists body. split; [reflexivity|exact Hb].
+Qed.
